@@ -18,7 +18,7 @@ PROPS = {
         "level": "exploration",
         "quick": cfg(16, 20, args=["bin_every=499"]),
         "thorough": cfg(16, 300, args=["bin_every=499"]),
-        "rule": "every message parsed from a generated stream (as C01, storage micros < 10^6, both source framings) is written with to_write, re-parsed, written again and decoded by the independent reference decoder; the concatenated export is re-read and re-exported; per case one message of the stream gets DLT\\x01 / DLS\\x01 written into its payload (start, end, random offset) or apid/ctid/ecu, is obtained by parsing it in front of a second message and goes through the same message oracle (C02 has no 'no embedded marker' precondition at message level); every 499th storage-framed case additionally goes through the real binary: `adlt convert in.dlt -o a.dlt` must write exactly the bytes of the message-wise export and `adlt convert a.dlt -o b.dlt` must be byte-identical to a.dlt; every 4th of these files consists of up to 40 near-maximal messages (larger than the 512 KiB read buffer of the file readers). Non-trivial = original header carried WEID or WSID or MSBF or payload > 60000; distinct = (source framing, header shape, payload size bucket).",
+        "rule": "every message parsed from a generated stream (as C01, storage micros < 10^6, both source framings) is written with to_write, re-parsed, written again and decoded by the independent reference decoder; the concatenated export is re-read and re-exported; per case one message of the stream gets DLT\\x01 / DLS\\x01 written into its payload (start, end, random offset) or apid/ctid/ecu, is obtained by parsing it in front of a second message and goes through the same message oracle (C02 has no 'no embedded marker' precondition at message level); every 499th storage-framed case additionally goes through the real binary: `adlt convert in.dlt -o a.dlt` must write exactly the bytes of the message-wise export and `adlt convert a.dlt -o b.dlt` must be byte-identical to a.dlt; every 4th of these files consists of up to 40 near-maximal messages (larger than the 512 KiB read buffer of the file readers); every 2nd of them is preceded by a lifecycle scenario (several ECUs, merges; chosen by a census guided pre-screen for the merge-flush release path) written in normal form, whose export through the binary has to be byte identical to the input. Non-trivial = original header carried WEID or WSID or MSBF or payload > 60000; distinct = (source framing, header shape, payload size bucket).",
         "floors": {"quick": {"evaluations": 10000, "distinct_nontrivial": 100, "files_compared": 5000, "bin_export_of_export": 50, "embedded_marker_msgs": 10000}, "thorough": {"evaluations": 200000, "distinct_nontrivial": 200}},
         "needs_bin": True,
         "assumptions": ["htyp version bits and the original len are not compared (to_write normalises them)", "file level comparison skipped (and counted) when the export contains an embedded marker"],
@@ -68,7 +68,7 @@ PROPS = {
         "level": "exploration",
         "quick": cfg(16, 15),
         "thorough": cfg(16, 300),
-        "rule": "families of 0-12 sources (thorough: up to 2000, mostly empty) with 0-200 messages each, reception times equal / strictly increasing / random / increasing with heavy ties, arbitrary source indices, start index incl. u32::MAX - n; each message carries (source, position); checked: SortingMultiReaderIterator::new / new_or_single_it and SequentialMultiIterator::new / new_or_single_it (iterator and Vec based). Non-trivial = >=2 non-empty sources with ties; distinct = (sources, empties, all sorted, size bucket, start class).",
+        "rule": "families of 0-12 sources (thorough: up to 2000, mostly empty) with 0-200 messages each, reception times equal / strictly increasing / random / increasing with heavy ties, arbitrary source indices, start index incl. u32::MAX - n; each message carries (source, position); checked: SortingMultiReaderIterator::new / new_or_single_it and SequentialMultiIterator::new / new_or_single_it (iterator and Vec based). The *_or_single_it constructors also get their sources through adapters without an exact size hint (filter, from_fn). Non-trivial = >=2 non-empty sources with ties; distinct = (sources, empties, all sorted, size bucket, start class).",
         "floors": {"quick": {"evaluations": 500000, "distinct_nontrivial": 1000}, "thorough": {"evaluations": 5000000, "distinct_nontrivial": 2000, "max_sources": 500}},
         "assumptions": ["for new_or_single_it with exactly one source the documented behaviour (start_index ignored) is respected: only content and order are compared"],
     },
